@@ -56,7 +56,9 @@ RangeCases(u) ==
       m \in {"get"}, L \in 0..MaxL, ss \in SeqsUpTo(SpecsFor(SmallPos(MaxL)), MaxSpecs)}
 
 TwoTo64 == <<18, 446744073, 709551616>>
-BigLens == {N(1), N(10), <<0, 4, 294967296>>, <<9, 223372036, 854775808>>, MaxU64}
+\* (pairs of specs only over two lengths: initial-state generation is single-threaded)
+BigLens == IF MaxSpecs >= 2 THEN {N(10), MaxU64}
+           ELSE {N(1), N(10), <<0, 4, 294967296>>, <<9, 223372036, 854775808>>, MaxU64}
 BigPos(L) == {Zero, One, Pred(L), L, Succ(L), <<0, 4, 294967296>>, <<9, 223372036, 854775808>>,
               Pred(MaxU64), MaxU64, TwoTo64}
 BigCases(u) ==
